@@ -6,5 +6,6 @@ CONSTANTS
   DefectC18 = FALSE
   DefectC19 = FALSE
   AtomicWrite = TRUE
+  TmpTrunc = TRUE
 INVARIANTS Dump
 CHECK_DEADLOCK FALSE
